@@ -27,6 +27,9 @@ let handle (x : sexp) : Stdlib.String.t =
        | Some l -> "L " ^ String.concat " " (List.map (fun x -> "[" ^ str_out x ^ "]") l))
   | L [A "escape"; bytes; q; L s] ->
       "E " ^ str_out (escape_for_quote printable (boolv bytes) (n_of_int (int_of_string (atom q))) (cps s))
+  | L [A "litval"; bytes; q; L body] ->
+      (match literal_value (boolv bytes) (n_of_int (int_of_string (atom q))) (cps body) with
+       | None -> "V none" | Some v -> "V " ^ str_out v)
   | L [A "quote"; L s] -> "Q " ^ string_of_int (int_of_n (quote_strategy (cps s)))
   | L [A "dispatch"; L mro; L acc; L ops] ->
       let mt = table_of mro and at = table_of acc in
